@@ -10,7 +10,7 @@ A. luna.gateware.usb.usb3.application.request.SuperSpeedSetupDecoder
    the final word, or `rx_bad` early (packet aborted after k words, no `last`), 1-12 idle cycles between packets; payloads
    are random, equal to the previous setup packet in all but one bit, or all-ones / all-zeros.  Deliberate patterns: a
    short (4..7 byte) setup-flagged packet followed by a 4-byte non-setup packet, by zero-length packets, and by a valid
-   8-byte SETUP; a bad 8-byte setup followed by a good one; 12/16-byte setup-flagged packets whose tail looks like a setup.
+   8-byte SETUP; a bad 8-byte setup followed by a good one; 9..16-byte setup-flagged packets.
    Oracle (USB 3.2 8.12.2, USB 2.0 table 9-2; nothing from luna): `packet.received` pulses exactly once, 1..3 cycles
    after the verdict, iff the packet had the setup flag, exactly 8 payload bytes and verdict good; in that cycle
    recipient/type/direction = bits 4:0 / 6:5 / 7 of byte 0, request = byte 1, value / index / length = little-endian
@@ -47,7 +47,7 @@ RULE = ("case = decoder session (50-110 data packets: setup flag x 0..16 bytes x
         "truncated descriptor; distinct = hash of both scripts")
 REQUIRED_BINS = ["setup8_good", "setup8_bad", "setup8_aborted", "setup_short_good", "setup_long_good", "setup_zero_length", "nonsetup8_good",
                  "nonsetup4_after_short_setup", "valid_setup_after_short_setup", "good_setup_after_bad_setup", "word_gap_inside_setup",
-                 "verdict_delay_1", "verdict_delay_ge_4", "one_bit_variation", "setup_long_tail_looks_like_setup",
+                 "verdict_delay_1", "verdict_delay_ge_4", "one_bit_variation", "setup16_good",
                  "desc_known", "desc_unknown", "desc_unknown_one_bit_off", "wlength_0", "wlength_lt_len", "wlength_eq_len", "wlength_gt_len",
                  "wlength_len_plus_256", "wlength_cuts_mid_word", "desc_len_not_multiple_of_4", "tx_stalled", "tx_stall_on_last_word",
                  "collection_real", "collection_list", "single_descriptor_collection"]
@@ -120,11 +120,9 @@ def make_packets(rng, res):
             if rng.random() < 0.5:
                 add(True, 8, "good")
         elif k < 0.58:
-            # over-long setup-flagged packet; sometimes its tail is a copy of a plausible setup packet
+            # over-long setup-flagged packet; (a decoder that ignores `first` would take its tail for a setup packet)
             nb = rng.choice([9, 10, 12, 12, 16, 16, 13])
-            p = add(True, nb, rng.choice(["good", "good", "bad"]))
-            if nb >= 12 and rng.random() < 0.6:
-                res.bin("setup_long_tail_looks_like_setup")
+            add(True, nb, rng.choice(["good", "good", "bad"]))
         elif k < 0.66:
             add(True, rng.choice([0, 0, 1, 2, 3]), rng.choice(["good", "bad"]))
         elif k < 0.80:
@@ -249,6 +247,8 @@ def decoder_session(rng, res):
             res.bin("setup_zero_length" if p["n"] == 0 else "setup_short_good" if p["n"] < 8 else "setup_long_good")
         elif not p["setup"] and p["n"] == 8 and p["verdict"] == "good":
             res.bin("nonsetup8_good")
+        if p["setup"] and p["n"] == 16 and p["verdict"] == "good":
+            res.bin("setup16_good")
         if p["delay"] == 1:
             res.bin("verdict_delay_1")
         elif p["delay"] >= 4:
@@ -337,13 +337,13 @@ def handler_session(rng, res):
     tx = dut.tx
     nreq = rng.randint(14, 26)
     b = Bench(dut, domain="ss", freq=125e6, max_cycles=nreq * 400 + 500)
-    b.watch(tx.valid, tx.last, tx.payload, dut.tx_length, dut.stall)
+    b.watch(tx.valid, tx.ready, tx.last, tx.payload, dut.tx_length, dut.stall)
     ready_profile = rng.choice(["always", "random", "random", "bursty", "low_until_valid", "stall_last"])
     p_ready = rng.choice([0.3, 0.6, 0.85])
     res.sig(sorted(table.items()), use_real, ready_profile, p_ready)
     keys = sorted(table)
 
-    S = {"ready": 1, "words": [], "in_stream": False, "prev": None, "first_cycle": None, "tx_length": None, "stalls": [],
+    S = {"words": [], "in_stream": False, "prev": None, "first_cycle": None, "tx_length": None, "stalls": [],
          "done": False, "expect_words": 0}
 
     def monitor(b):
@@ -360,7 +360,7 @@ def handler_session(rng, res):
                     S["tx_length"] = b.get(dut.tx_length)
             if S["prev"] is not None and S["prev"] != word:
                 res.violation("descriptor_word_changed_while_not_ready", "handler: cycle %d word %s -> %s" % (b.cycle, S["prev"], word))
-            if S["ready"]:
+            if b.get(tx.ready):
                 S["words"].append((b.cycle,) + word)
                 S["prev"] = None
                 if word[2]:
@@ -376,14 +376,9 @@ def handler_session(rng, res):
                 S["prev"] = None
             S["in_stream"] = False
 
-    def set_ready(val):
-        b.set(tx.ready, val)
-        S["ready_next"] = val
-
     def ready_driver():
         run, val = 0, 1
         while True:
-            # S["ready"] must describe the value the DUT saw in the cycle that is sampled next
             if ready_profile == "always":
                 val = 1
             elif ready_profile == "random":
@@ -402,9 +397,7 @@ def handler_session(rng, res):
                 if S["in_stream"] and len(S["words"]) >= S["expect_words"] - 1 and rng.random() < 0.6:
                     val = 0
             b.set(tx.ready, val)
-            S["ready_pending"] = val
             yield
-            S["ready"] = S["ready_pending"]
 
     def choose_request():
         k = rng.random()
@@ -487,6 +480,9 @@ def handler_session(rng, res):
                 if not S["done"]:
                     res.violation("descriptor_stream_not_finished", "%s: %d words transferred, no `last`" % (ctx, len(words)))
                     continue
+                li = [j for j, w in enumerate(words) if w[3]][0]
+                extra = words[li + 1:]
+                words = words[:li + 1]
                 got = b"".join(w[2].to_bytes(4, "little")[:NBYTES.get(w[1], 4)] for w in words)
                 masks_ok = all(w[1] == 0b1111 for w in words[:-1]) and words[-1][1] in NBYTES
                 res.event("descriptor_bytes_compared", len(want))
@@ -505,7 +501,6 @@ def handler_session(rng, res):
                     if S["tx_length"] == wl and wl > ln:
                         mech = "tx_length_is_requested_length"
                     res.violation(mech, "%s: tx_length=%d in the first valid cycle, expected %d" % (ctx, S["tx_length"], len(want)))
-                extra = [w for w in words if w[0] > [x for x in words if x[3]][0][0]]
                 if extra:
                     res.violation("descriptor_words_after_last", "%s: %d words after the word flagged last" % (ctx, len(extra)))
             else:
